@@ -10,7 +10,8 @@ Rust item (pdf/src/…)                                        → definition he
 `StorageResolver::get::<T>` (file.rs:309-348)                 → `getM` : guard check on `chain`, push,
                                                                 `cache.get_or_compute`, type-checked downcast
                                                                 (`AnySync::downcast`, any.rs:89) with uncached
-                                                                fallback on mismatch, cached `Err`, pop
+                                                                fallback on mismatch, cached `Err`, pop;
+                                                                the compute closure is `Doc.compute`
 `Cache::get_or_compute` for `NoCache` / `SyncCache`           → `Cfg.objCache = false / true` (`SyncCache::get`
                                                                 run by one thread: lookup, compute, insert; the
                                                                 in-process marker is never seen by its own thread
@@ -53,6 +54,9 @@ inductive Prog (V E : Type) where
 structure Doc (V E : Type) where
   /-- `resolve(r).and_then(|p| T::from_primitive(p, self))` -/
   body : Nat → Nat → Prog V E
+  /-- `self.resolve(r)` once more: the compute closure of `get` does it when the load failed, only to
+      print the primitive in a warning (file.rs:330); its nested calls still happen -/
+  relog : Nat → Prog V E
   /-- `Storage::decode` -/
   decode : Nat → List Nat → Res V E
   /-- the error of `bail!("Recursive reference")` -/
@@ -103,6 +107,22 @@ def run (getF : List Nat → St V E → Nat → Nat → Res V E × St V E) (d : 
   | ch, st, .data r fs k =>
     run getF d cfg ch (dataM d cfg st r fs).2 (k (dataM d cfg st r fs).1)
 
+/-- run `q` for its effects only, then return `x` -/
+def discard : Prog V E → Res V E → Prog V E
+  | .ret _, x => .ret x
+  | .get T r k, x => .get T r fun y => discard (k y) x
+  | .data r fs k, x => .data r fs fun y => discard (k y) x
+
+/-- `p`, and when it ends in an error `q` for its effects -/
+def orLog : Prog V E → Prog V E → Prog V E
+  | .ret (.err e), q => discard q (.err e)
+  | .ret x, _ => .ret x
+  | .get T r k, q => .get T r fun y => orLog (k y) q
+  | .data r fs k, q => .data r fs fun y => orLog (k y) q
+
+/-- the compute closure handed to `get_or_compute` (file.rs:328-337) -/
+def Doc.compute (d : Doc V E) (T r : Nat) : Prog V E := orLog (d.body T r) (d.relog r)
+
 /-- what `get` does with the outcome of the compute closure on a cache miss: it is stored -/
 def store (st : St V E) (r T : Nat) : Res V E → Res V E × St V E
   | .ok v => (.ok v, { st with obj := (r, .val T v) :: st.obj })
@@ -123,9 +143,9 @@ def getM (d : Doc V E) (cfg : Cfg) : Nat → List Nat → St V E → Nat → Nat
         if cfg.trustErr then (.err e, st)
         else run (getM d cfg f) d cfg (r :: ch) st (d.body T r)
       | none =>
-        store (run (getM d cfg f) d cfg (r :: ch) st (d.body T r)).2 r T
-              (run (getM d cfg f) d cfg (r :: ch) st (d.body T r)).1
-    else run (getM d cfg f) d cfg (r :: ch) st (d.body T r)
+        store (run (getM d cfg f) d cfg (r :: ch) st (d.compute T r)).2 r T
+              (run (getM d cfg f) d cfg (r :: ch) st (d.compute T r)).1
+    else run (getM d cfg f) d cfg (r :: ch) st (d.compute T r)
 
 /-- one top level call: the chain is empty -/
 def call (d : Doc V E) (cfg : Cfg) (fuel : Nat) (st : St V E) (p : Prog V E) : Res V E × St V E :=
